@@ -8,6 +8,7 @@ understand becomes an opaque `Sym` term, so a result is only ever used when it
 folded completely.
 """
 from collections import namedtuple
+from . import baseline as _baseline
 
 V = namedtuple("V", "path args")          # enum variant / tuple-struct constructor value
 S = namedtuple("S", "path fields")        # struct literal (fields: tuple of (name, value))
@@ -939,7 +940,9 @@ class Evaluator:
         f = self.lookup_fn(target)
         if f is None and resolved is None:
             f = self.lookup_fn(path)
-        if f is not None and f.hir is not None and self.inline(f.path):
+        if f is not None and f.hir is not None and (self.inline(f.path) or (not f.reachable and _baseline.is_new(f.path))):
+            # callees the rule asked for, and private helpers that did not exist when the rules were written (an
+            # extract-function refactoring must not change a verdict)
             return self._call(f, args)
         r = Sym("call", (target if f is not None else path, tuple(args)))
         self.trace.append(r)
